@@ -68,6 +68,12 @@ func runHistory(res *Result, cfg PoolCfg, ops []HOp) error {
 			}
 		}
 		lr.CheckCommits()
+		// a handle opened after the operation (a new process: empty vector cache),
+		// used for the vector-path reads below
+		envV, err := OpenLakeEnv(env.Eng.View(nil))
+		if err != nil {
+			return err
+		}
 		// second handle with warm caches
 		seen := map[ksuid.KSUID]bool{}
 		for _, b := range lr.Branches {
@@ -103,8 +109,8 @@ func runHistory(res *Result, cfg PoolCfg, ops []HOp) error {
 				// integer field at parallelism 2) must keep giving what the plain scan of
 				// the commit gives, whatever was added, refused or removed later
 				if wantV, werr := RunQuery("sum(id)", strings.Join(got, "\n")); werr == nil {
-					gotV, errV := env2.QueryAt(fmt.Sprintf("from p@%s | sum(id)", c.ID), 2, &lakeparse.Commitish{Pool: "p", Branch: c.ID.String()})
-					res.Count("second_handle_vector_requeries")
+					gotV, errV := envV.QueryAt(fmt.Sprintf("from p@%s | sum(id)", c.ID), 2, &lakeparse.Commitish{Pool: "p", Branch: c.ID.String()})
+					res.Count("fresh_handle_vector_requeries")
 					if errV != nil || strings.Join(gotV, " ") != strings.Join(wantV, " ") {
 						res.Fail(Failure{Kind: "oracle", Sig: "C13:commit-aggregate-differs-from-scan:after-" + op.Kind, Detail: fmt.Sprintf("after %s, `sum(id)` at commit %s (parallelism 2, vector copies used when complete) returns %v (err=%v); the plain scan of the same commit holds %d values whose sum(id) is %v", op.Kind, c.ID, gotV, errV, len(got), wantV), Replay: map[string]any{"pool": cfg.String(), "history": lr.Log}, Expected: strings.Join(wantV, " "), Observed: fmt.Sprint(gotV, errV)})
 					}
